@@ -389,6 +389,19 @@ def _shallowcopy(sk, n, x):
     return x
 
 
+def _reduce(sk, n, f, seq, *init):
+    items = list(sk.iterate(seq, n))
+    if init:
+        acc = init[0]
+    elif items:
+        acc, items = items[0], items[1:]
+    else:
+        raise Violation('SK2', 'reduce() of an empty sequence with no initial value', n)
+    for x in items:
+        acc = sk.apply(f, [acc, x], {}, n)
+    return acc
+
+
 def _deepcopy_tracked(sk, n, x, *memo):
     if memo and isinstance(memo[0], dict):
         return deepcopy_memo(sk, n, x, memo[0])
@@ -448,7 +461,7 @@ class SK(object):
             if imp[1] == 'copy.copy':
                 return BUILTINS['shallowcopy']
             if imp[1] in ('functools.reduce',):
-                raise Unsupported('functools.reduce')
+                return BUILTINS['reduce']
             if imp[1] == 'functools.partial':
                 return BUILTINS['partial']
             if imp[1] in ('bisect.bisect_left', 'bisect.bisect_right', 'bisect.bisect'):
@@ -1233,6 +1246,7 @@ BUILTINS = {
     'hasattr': Py(lambda sk, n, ob, k: isinstance(ob, Bag) and k in ob._a, 'hasattr'),
     'dict': Py(lambda sk, n, *a, **k: dict(*a, **k), 'dict'), 'deepcopy': Py(_deepcopy_tracked, 'deepcopy'),
     'sum': Py(_sum, 'sum'), 'reversed': Py(lambda sk, n, x: list(reversed(x)), 'reversed'), 'sorted': Py(lambda sk, n, x: sorted(x), 'sorted'),
+    'reduce': Py(lambda sk, n, f, seq, *init: _reduce(sk, n, f, seq, *init), 'reduce'),
     'partial': Py(lambda sk, n, f, *a, **k: Py(lambda sk2, n2, *a2, _f=f, _a=a, _k=k, **k2: sk2.apply(_f, list(_a) + list(a2), dict(_k, **k2), n2), 'partial'), 'partial'),
     'set': Py(lambda sk, n, *a: set(*a), 'set'), 'str': Py(lambda sk, n, *a: _str(sk, n, *a), 'str'), 'print': Py(lambda sk, n, *a, **k: None, 'print'),
     'all': Py(lambda sk, n, x: all(x), 'all'), 'any': Py(lambda sk, n, x: any(x), 'any'), 'bool': Py(lambda sk, n, x: bool(x), 'bool'),
